@@ -1255,8 +1255,11 @@ def _lazy_db(edb: dict[str, ast.FunctionDef]) -> dict:
                 found = True
     if not found:
         raise TranslateError('get_fgd: `for i, ... in enumerate(self.unparsed): ... self._parse_block(i)` not recognised')
+    # every return of get_fgd hands out deepcopy(<something>) (then what FGD.engine_dbase receives is already the caller's own)
+    gf_rets = [n for n in ast.walk(gf) if isinstance(n, ast.Return)]
+    gf_deep = bool(gf_rets) and all(n.value is not None and _is_deepcopy(n.value) is not None for n in gf_rets)
     return dict(via_get_ent=via_get_ent, mark_before_resolve=mark[0] < loops[1], mark_after_decode=mark[0] > loops[0],
-                fgd_applies_bases=any(_is_call_method(n, 'apply_bases') for n in ast.walk(gf)))
+                fgd_applies_bases=any(_is_call_method(n, 'apply_bases') for n in ast.walk(gf)), get_fgd_returns_deepcopy=gf_deep)
 
 
 # ------------------------------------------------------------------------------------------ several databases
@@ -1362,6 +1365,7 @@ def _multi_db(tree: ast.Module) -> dict:
     dv = loop.target.id  # type: ignore[attr-defined]
     lb = loop.body
     ok = False
+    ed_deep = True
     if lb and isinstance(lb[0], ast.Try) and not lb[0].finalbody and len(lb[0].handlers) == 1:
         tr = lb[0]
         h = tr.handlers[0]
@@ -1378,7 +1382,9 @@ def _multi_db(tree: ast.Module) -> dict:
         if (h.type is not None and _is(h.type, 'KeyError') and quiet and len(rets) == 1 and not others and rets[0].value is not None):
             val = _deref(rets[0].value, env2)
             inner = _is_deepcopy(val)
-            if inner is not None and _is(inner, f'{dv}.get_ent({cn})'):
+            if inner is None:                   # the cached definition itself is handed out: a shape with a meaning (CShare), not an error
+                inner, ed_deep = val, False
+            if _is(inner, f'{dv}.get_ent({cn})'):
                 ok = True
     if not ok and len(lb) == 1 and isinstance(lb[0], ast.If) and not lb[0].orelse:
         # the membership test instead of the exception: `if classname.casefold() in dbase.get_classnames(): return deepcopy(dbase.get_ent(classname))`
@@ -1389,8 +1395,11 @@ def _multi_db(tree: ast.Module) -> dict:
                                              and x.targets[0].id in env2)]
         if (m and m[0] == 'in' and _is(m[1], f'{cn}.casefold()') and (_is(m[2], f'{dv}.get_classnames()') or _is(m[2], f'{dv}.ent_map'))
                 and len(sts) == 1 and isinstance(sts[0], ast.Return) and sts[0].value is not None):
-            inner = _is_deepcopy(_deref(sts[0].value, env2))
-            ok = inner is not None and _is(inner, f'{dv}.get_ent({cn})')
+            val = _deref(sts[0].value, env2)
+            inner = _is_deepcopy(val)
+            if inner is None:
+                inner, ed_deep = val, False
+            ok = _is(inner, f'{dv}.get_ent({cn})')
     if not ok:
         raise TranslateError('EntityDef.engine_def: loop body is not `try: return deepcopy(dbase.get_ent(classname)) except KeyError: pass`: '
                              + ast.unparse(loop)[:200])
@@ -1405,14 +1414,18 @@ def _multi_db(tree: ast.Module) -> dict:
         return isinstance(st, ast.AnnAssign) and isinstance(st.target, ast.Name) and st.target.id in env
     body = [st for st in _body(eb) if not is_local_def(st)]
     shortcut = False
+    short_deep = True
     if body and isinstance(body[0], ast.If):
         t = _deref(body[0].test, env)
         sc = body[0]
         if not ((_is(t, 'len(_load_engine_db()) == 1') or _is(t, '1 == len(_load_engine_db())')) and not sc.orelse and len(sc.body) == 1
                 and isinstance(sc.body[0], ast.Return) and sc.body[0].value is not None):
             raise TranslateError('FGD.engine_dbase: the leading `if` is not the single-database shortcut: ' + ast.unparse(sc)[:160])
-        inner = _is_deepcopy(_deref(sc.body[0].value, env))
-        if inner is None or not (_is(inner, '_load_engine_db()[0].get_fgd()') or _is(inner, '_load_engine_db()[-1].get_fgd()')):
+        val = _deref(sc.body[0].value, env)
+        inner = _is_deepcopy(val)
+        if inner is None:
+            inner, short_deep = val, False
+        if not (_is(inner, '_load_engine_db()[0].get_fgd()') or _is(inner, '_load_engine_db()[-1].get_fgd()')):
             raise TranslateError('FGD.engine_dbase: the single-database shortcut does not return deepcopy(databases[0].get_fgd())')
         shortcut = True
         body = body[1:]
@@ -1502,6 +1515,7 @@ def _multi_db(tree: ast.Module) -> dict:
             where = 'back'
     return dict(first_hit=fwd, merge=mode, merge_loop_forward=fwd_all, effective_first=effective_first, single_shortcut=shortcut,
                 applies_bases=applies_bases, added_database_goes=where,
+                answers_deep=[('engine_def', ed_deep)] + ([('engine_dbase_single', short_deep)] if shortcut else []) + [('engine_dbase_merged', rv is not None)],
                 digests={'engine_def': ast_digest(ed_raw), 'engine_dbase': ast_digest(eb_raw), 'add_engine_database': ast_digest(ad)})
 
 
@@ -2032,6 +2046,525 @@ def _kind_keyword(tree: ast.Module) -> dict:
     return {'folded': folded, 'directives': directives, 'writer_ops': ops, 'kinds': [v for _, v in et_members]}
 
 
+# ------------------------------------------------------------------------------------------ helper argument lists (round 5)
+def _blank_test(test: ast.AST, var: str) -> str | None:
+    """A comprehension / loop condition on the piece `var`: 'stripped' = the piece is kept when it is non-blank after strip,
+    'raw' = when it is non-empty as it is.  None = not such a test."""
+    if isinstance(test, ast.Compare) and len(test.ops) == 1 and isinstance(test.comparators[0], ast.Constant) and test.comparators[0].value == '' \
+            and isinstance(test.ops[0], ast.NotEq):
+        test = test.left
+    elif (isinstance(test, ast.Compare) and len(test.ops) == 1 and isinstance(test.ops[0], (ast.Gt, ast.NotEq)) and isinstance(test.comparators[0], ast.Constant)
+          and test.comparators[0].value == 0 and isinstance(test.left, ast.Call) and _is(test.left.func, 'len') and len(test.left.args) == 1):
+        test = test.left.args[0]
+    if _is(test, var):
+        return 'raw'
+    if _is(test, f'{var}.strip()'):
+        return 'stripped'
+    return None
+
+
+def _split_source(it: ast.AST, tokv: str) -> str:
+    """`<tokv>.split(<sep>)` -> sep (one character)."""
+    if not (isinstance(it, ast.Call) and isinstance(it.func, ast.Attribute) and it.func.attr == 'split' and _is(it.func.value, tokv)
+            and len(it.args) == 1 and not it.keywords):
+        raise TranslateError(f'EntityDef.parse: helper arguments are not taken from {tokv}.split(<sep>): {ast.unparse(it)[:60]}')
+    sep = _const(it.args[0], str, 'split separator')
+    if len(sep) != 1:
+        raise TranslateError('EntityDef.parse: split separator is not one character')
+    return sep
+
+
+def _helper_args(tree: ast.Module) -> dict:
+    """EntityDef.parse, the `token is Token.PAREN_ARGS` branch: how the text between the parentheses becomes the argument list
+    (Fmt/FgdHead.v, paren_args_with): the separator, whether each piece is stripped, the FILTER of the comprehension / loop (none,
+    blank after strip, empty before it), whether `['']` is cleared afterwards; and that the list then reaches UnknownHelper(..),
+    HELPER_IMPL[..].parse(..) and the base() loop as it is.  EntityDef.export: the literals that join an argument list."""
+    fn = _normalise(_method(tree, 'EntityDef', 'parse'), tree)
+    branch: ast.If | None = None
+    tokv = ''
+    for loop in [n for n in ast.walk(fn) if isinstance(n, ast.For)]:
+        if not (isinstance(loop.target, ast.Tuple) and len(loop.target.elts) == 2 and all(isinstance(x, ast.Name) for x in loop.target.elts)):
+            continue
+        tkind, tval = (x.id for x in loop.target.elts)   # type: ignore[attr-defined]
+        for n in ast.walk(loop):
+            if isinstance(n, ast.If) and (_is(n.test, f'{tkind} is Token.PAREN_ARGS') or _is(n.test, f'{tkind} == Token.PAREN_ARGS')):
+                if branch is not None:
+                    raise TranslateError('EntityDef.parse: more than one PAREN_ARGS branch')
+                branch, tokv = n, tval
+    if branch is None:
+        raise TranslateError('EntityDef.parse: PAREN_ARGS branch not found')
+    body = list(branch.body)
+    # leading guards that only raise
+    while body and isinstance(body[0], ast.If) and not body[0].orelse and all(isinstance(x, ast.Raise) for x in body[0].body):
+        body = body[1:]
+    if not body:
+        raise TranslateError('EntityDef.parse: PAREN_ARGS branch is empty')
+    # `pieces = tok.split(','); args = [p.strip() for p in pieces]`: a single-use local for the split is inlined
+    if (len(body) > 1 and isinstance(body[0], ast.Assign) and len(body[0].targets) == 1 and isinstance(body[0].targets[0], ast.Name)
+            and isinstance(body[0].value, ast.Call) and isinstance(body[0].value.func, ast.Attribute) and body[0].value.func.attr == 'split'
+            and isinstance(body[1], (ast.Assign, ast.AnnAssign, ast.For))
+            and sum(_loads(x, body[0].targets[0].id) for x in body[1:]) == 1 and _loads(body[1], body[0].targets[0].id) == 1
+            and body[0].targets[0].id not in set().union(*[_stores(x) for x in body[1:]])):
+        import copy as _copy
+        body = [_subst(_copy.deepcopy(body[1]), body[0].targets[0].id, body[0].value)] + body[2:]     # type: ignore[list-item]
+    st = body[0]
+    strip, filt, sep, var_args = False, 'FKeep', ',', ''
+    rest_from = 1
+
+    def comp(value: ast.AST) -> tuple[str, bool, str]:
+        """[ELT for x in tokv.split(sep) if ...]  /  list(map(str.strip, tokv.split(sep)))  /  tokv.split(sep)"""
+        if isinstance(value, ast.ListComp) and len(value.generators) == 1 and isinstance(value.generators[0].target, ast.Name) and not value.generators[0].is_async:
+            g = value.generators[0]
+            x = g.target.id   # type: ignore[attr-defined]
+            sp = _split_source(g.iter, tokv)
+            if _is(value.elt, f'{x}.strip()'):
+                stp = True
+            elif _is(value.elt, x):
+                stp = False
+            else:
+                raise TranslateError(f'EntityDef.parse: helper argument expression not recognised: {ast.unparse(value.elt)[:60]}')
+            fl = 'FKeep'
+            for c in g.ifs:
+                k = _blank_test(c, x)
+                if k is None:
+                    raise TranslateError(f'EntityDef.parse: filter of the helper arguments not recognised: {ast.unparse(c)[:60]}')
+                fl = 'FDropStripped' if k == 'stripped' or fl == 'FDropStripped' else 'FDropRaw'
+            return sp, stp, fl
+        if isinstance(value, ast.Call) and _is(value.func, 'list') and len(value.args) == 1 and isinstance(value.args[0], ast.Call) \
+                and _is(value.args[0].func, 'map') and len(value.args[0].args) == 2 and _is(value.args[0].args[0], 'str.strip'):
+            return _split_source(value.args[0].args[1], tokv), True, 'FKeep'
+        if isinstance(value, ast.Call) and isinstance(value.func, ast.Attribute) and value.func.attr == 'split':
+            return _split_source(value, tokv), False, 'FKeep'
+        raise TranslateError(f'EntityDef.parse: helper argument list not recognised: {ast.unparse(value)[:80]}')
+
+    if isinstance(st, (ast.Assign, ast.AnnAssign)) and st.value is not None:
+        tgt = st.targets[0] if isinstance(st, ast.Assign) and len(st.targets) == 1 else getattr(st, 'target', None)
+        if not isinstance(tgt, ast.Name):
+            raise TranslateError('EntityDef.parse: the helper arguments are not bound to a local')
+        var_args = tgt.id
+        if isinstance(st.value, ast.List) and not st.value.elts and len(body) > 1 and isinstance(body[1], ast.For):
+            # args = []; for x in tokv.split(sep): [if c:] args.append(x.strip())
+            loop = body[1]
+            if not (isinstance(loop.target, ast.Name) and not loop.orelse):
+                raise TranslateError('EntityDef.parse: helper argument loop not recognised')
+            x = loop.target.id
+            sep = _split_source(loop.iter, tokv)
+            inner = loop.body
+            while len(inner) == 1 and isinstance(inner[0], ast.If) and not inner[0].orelse:
+                k = _blank_test(inner[0].test, x)
+                if k is None:
+                    raise TranslateError(f'EntityDef.parse: filter of the helper arguments not recognised: {ast.unparse(inner[0].test)[:60]}')
+                filt = 'FDropStripped' if k == 'stripped' or filt == 'FDropStripped' else 'FDropRaw'
+                inner = inner[0].body
+            if len(inner) == 1 and _is(inner[0], f'{var_args}.append({x}.strip())'):
+                strip = True
+            elif len(inner) == 1 and _is(inner[0], f'{var_args}.append({x})'):
+                strip = False
+            else:
+                raise TranslateError('EntityDef.parse: helper argument loop body not recognised')
+            rest_from = 2
+        else:
+            sep, strip, filt = comp(st.value)
+    else:
+        raise TranslateError(f'EntityDef.parse: the PAREN_ARGS branch does not start by binding the argument list: {ast.unparse(st)[:60]}')
+    a = var_args
+    clear = False
+    sole_tests = (f"len({a}) == 1 and {a}[0] == ''", f"{a} == ['']", f"len({a}) == 1 and not {a}[0]", f"{a}[0] == '' and len({a}) == 1",
+                  f"len({a}) == 1 and {a}[0] == ''", f"1 == len({a}) and {a}[0] == ''")
+    sole_bodies = (f'{a}.clear()', f'{a} = []', f'del {a}[:]', f'{a}.pop()', f'{a}[:] = []')
+    dispatch_seen = False
+    for st in body[rest_from:]:
+        names = {n.id for n in ast.walk(st) if isinstance(n, ast.Name)}
+        if a not in names:
+            continue
+        if isinstance(st, ast.If) and {n.id for n in ast.walk(st.test) if isinstance(n, ast.Name)} <= {a, 'len'}:
+            if dispatch_seen or clear or st.orelse or len(st.body) != 1 or not any(_is(st.test, t) for t in sole_tests) \
+                    or not any(_is(st.body[0], b) for b in sole_bodies):
+                raise TranslateError(f'EntityDef.parse: statement about the helper arguments not recognised: {ast.unparse(st)[:80]}')
+            clear = True
+            continue
+        if isinstance(st, ast.If):
+            # the dispatch chain: apart from the autovis() branch the list is only passed on as it is (call argument / loop iterable)
+            dispatch_seen = True
+            branches: list[tuple[ast.AST | None, list[ast.stmt]]] = []
+            node: ast.If | None = st
+            while node is not None:
+                branches.append((node.test, node.body))
+                if len(node.orelse) == 1 and isinstance(node.orelse[0], ast.If):
+                    node = node.orelse[0]
+                else:
+                    if node.orelse:
+                        branches.append((None, node.orelse))
+                    node = None
+            for test, blk_list in branches:
+                if test is not None and a in {n.id for n in ast.walk(test) if isinstance(n, ast.Name)}:
+                    raise TranslateError('EntityDef.parse: the dispatch of a helper depends on its arguments')
+                if test is not None and any(isinstance(n, ast.Attribute) and n.attr == 'EXT_AUTO_VISGROUP' for n in ast.walk(test)):
+                    continue
+                for blk in blk_list:
+                    parents = {id(c): p for p in ast.walk(blk) for c in ast.iter_child_nodes(p)}
+                    for n in ast.walk(blk):
+                        if isinstance(n, ast.Name) and n.id == a:
+                            par = parents.get(id(n))
+                            ok = isinstance(n.ctx, ast.Load) and ((isinstance(par, ast.Call) and n in par.args and (
+                                isinstance(par.func, ast.Attribute) or (isinstance(par.func, ast.Name) and (par.func.id[:1].isupper() or par.func.id == 'len'))))
+                                or (isinstance(par, ast.For) and par.iter is n))
+                            if not ok:
+                                raise TranslateError(f'EntityDef.parse: the helper arguments are changed on their way: {ast.unparse(par)[:80] if par else a}')
+            continue
+        raise TranslateError(f'EntityDef.parse: statement about the helper arguments not recognised: {ast.unparse(st)[:80]}')
+    if not dispatch_seen:
+        raise TranslateError('EntityDef.parse: no dispatch on the helper type after the argument list')
+    # writer: every `<literal>.join(..)` in EntityDef.export up to the write of the class name
+    exp = _normalise(_method(tree, 'EntityDef', 'export'), tree)
+    joiners: list[str] = []
+    for top in _body(exp):
+        if isinstance(top, ast.Expr) and isinstance(top.value, ast.Call) and _is(top.value.func, 'file.write') and any(
+                isinstance(n, ast.Attribute) and n.attr == 'classname' and _is(n.value, 'self') for n in ast.walk(top)):
+            break
+        for n in ast.walk(top):
+            if isinstance(n, ast.Call) and isinstance(n.func, ast.Attribute) and n.func.attr == 'join':
+                joiners.append(_const(n.func.value, str, 'joiner of an argument list'))
+    if len(joiners) < 2:
+        raise TranslateError('EntityDef.export: the joins of the base and helper argument lists were not found')
+    return {'sep': sep, 'strip': strip, 'filter': filt, 'clear_sole': clear, 'joiners': joiners}
+
+
+# ------------------------------------------------------------------------------------------ what a copy shares (round 5)
+_IMM_NAMES = {'str', 'bool', 'int', 'float', 'bytes', 'complex', 'None', 'NoneType'}
+_COLL_NAMES = {'list', 'dict', 'set', 'List', 'Dict', 'Set', 'Sequence', 'MutableSequence', 'Mapping', 'MutableMapping', 'Collection',
+               'Iterable', 'MutableSet', 'deque', 'defaultdict', 'OrderedDict'}
+_FROZEN_NAMES = {'tuple', 'frozenset', 'Tuple', 'FrozenSet', 'AbstractSet'}
+
+
+class _Shapes:
+    """Shapes (Fmt: SM/FgdCopyShare.v ftype) of the annotations of one module: ('imm',) / ('coll', shape) / ('obj', class name) /
+    ('any',).  Type aliases are followed; Enum classes and `@attrs.frozen` classes are immutable; an `@attrs.define` class with
+    its own copy() method is an object whose fields are its annotated attributes in order; every other class is 'any'."""
+
+    def __init__(self, tree: ast.Module) -> None:
+        self.tree = tree
+        self.aliases: dict[str, ast.AST] = {}
+        self.classes: dict[str, ast.ClassDef] = {n.name: n for n in tree.body if isinstance(n, ast.ClassDef)}
+        for st in tree.body:
+            if isinstance(st, ast.AnnAssign) and isinstance(st.target, ast.Name) and st.value is not None and _is(st.annotation, 'TypeAlias'):
+                self.aliases[st.target.id] = st.value
+
+    def class_kind(self, name: str) -> str:
+        c = self.classes.get(name)
+        if c is None:
+            return 'any'
+        if any(ast.unparse(b).split('.')[-1] in ('Enum', 'IntEnum', 'Flag', 'IntFlag', 'StrEnum') for b in c.bases):
+            return 'imm'
+        decs = [ast.unparse(d.func if isinstance(d, ast.Call) else d) for d in c.decorator_list]
+        if any(d in ('attrs.frozen', 'attr.frozen') for d in decs) or any(
+                isinstance(d, ast.Call) and any(k.arg == 'frozen' and isinstance(k.value, ast.Constant) and k.value.value is True for k in d.keywords)
+                for d in c.decorator_list):
+            return 'imm'
+        if any(d in ('attrs.define', 'attr.define', 'attrs.mutable') for d in decs) and any(
+                isinstance(n, ast.FunctionDef) and n.name == 'copy' for n in c.body) and not any(
+                isinstance(n, ast.FunctionDef) and n.name == '__attrs_post_init__' for n in c.body):
+            return 'obj'
+        return 'any'
+
+    def fields(self, name: str) -> list[tuple[str, str, ast.AST, bool]]:
+        """(attribute name, constructor keyword, annotation, takes part in __init__) of an attrs class, in order."""
+        out = []
+        for st in self.classes[name].body:
+            if isinstance(st, ast.AnnAssign) and isinstance(st.target, ast.Name):
+                if 'ClassVar' in ast.unparse(st.annotation):
+                    continue
+                init, alias = True, st.target.id.lstrip('_')
+                if isinstance(st.value, ast.Call) and ast.unparse(st.value.func) in ('attrs.field', 'attr.ib', 'attrs.ib', 'attr.field'):
+                    for k in st.value.keywords:
+                        if k.arg == 'init' and isinstance(k.value, ast.Constant) and k.value.value is False:
+                            init = False
+                        if k.arg == 'alias' and isinstance(k.value, ast.Constant):
+                            alias = k.value.value
+                out.append((st.target.id, alias, st.annotation, init))
+        return out
+
+    def join(self, shapes: list[tuple]) -> tuple:
+        rest = [x for x in shapes if x != ('imm',)]
+        if not rest:
+            return ('imm',)
+        return rest[0] if all(x == rest[0] for x in rest) else ('any',)
+
+    def shape(self, ann: ast.AST, depth: int = 0) -> tuple:
+        if depth > 12:
+            return ('any',)
+        if isinstance(ann, ast.Constant):
+            if ann.value is None:
+                return ('imm',)
+            if isinstance(ann.value, str):
+                try:
+                    return self.shape(ast.parse(ann.value, mode='eval').body, depth + 1)
+                except SyntaxError:
+                    return ('any',)
+            return ('any',)
+        if isinstance(ann, ast.Attribute):           # builtins.type, typing.X
+            ann = ast.Name(id=ann.attr, ctx=ast.Load())
+        if isinstance(ann, ast.Name):
+            if ann.id in _IMM_NAMES:
+                return ('imm',)
+            if ann.id in self.aliases:
+                return self.shape(self.aliases[ann.id], depth + 1)
+            if ann.id in _COLL_NAMES:
+                return ('coll', ('any',))
+            k = self.class_kind(ann.id)
+            return ('obj', ann.id) if k == 'obj' else (k,)
+        if isinstance(ann, ast.BinOp) and isinstance(ann.op, ast.BitOr):
+            return self.join([self.shape(ann.left, depth + 1), self.shape(ann.right, depth + 1)])
+        if isinstance(ann, ast.Subscript):
+            head = ann.value.attr if isinstance(ann.value, ast.Attribute) else ann.value.id if isinstance(ann.value, ast.Name) else ''
+            args = list(ann.slice.elts) if isinstance(ann.slice, ast.Tuple) else [ann.slice]
+            if head in ('Optional', 'Union'):
+                return self.join([self.shape(a, depth + 1) for a in args])
+            if head in ('Final', 'Annotated'):
+                return self.shape(args[0], depth + 1)
+            if head in _COLL_NAMES:
+                return ('coll', self.shape(args[-1], depth + 1))       # dict: the values (keys are hashable, taken as immutable)
+            if head in _FROZEN_NAMES:
+                inner = [self.shape(a, depth + 1) for a in args if not (isinstance(a, ast.Constant) and a.value is Ellipsis)]
+                return ('imm',) if all(x == ('imm',) for x in inner) else ('any',)
+        return ('any',)
+
+    def coq(self, sh: tuple, depth: int = 0) -> str:
+        if sh[0] == 'imm':
+            return 'TImm'
+        if sh[0] == 'any' or depth > 6:
+            return 'TAny'
+        if sh[0] == 'coll':
+            return f'(TColl {self.coq(sh[1], depth + 1)})'
+        return '(TObj [' + '; '.join(self.coq(self.shape(a), depth + 1) for _, _, a, init in self.fields(sh[1]) if init) + '])'
+
+
+def _is_empty_literal(e: ast.AST) -> bool:
+    return (isinstance(e, (ast.List, ast.Tuple, ast.Set)) and not e.elts) or (isinstance(e, ast.Dict) and not e.keys) or (
+        isinstance(e, ast.Call) and isinstance(e.func, ast.Name) and e.func.id in ('list', 'dict', 'set') and not e.args and not e.keywords)
+
+
+class _CopyPlan:
+    """How a hand-written copy method produces every field of the copy (SM/FgdCopyShare.v cexpr)."""
+
+    def __init__(self, shapes: _Shapes) -> None:
+        self.sh = shapes
+        self.obj_cache: dict[str, str] = {}
+
+    def typ(self, e: ast.AST, env: dict[str, tuple], cls: str) -> tuple:
+        if isinstance(e, ast.Name) and e.id in env:
+            return env[e.id]
+        if isinstance(e, ast.Attribute) and _is(e.value, 'self'):
+            for name, _, ann, _ in self.sh.fields(cls):
+                if name == e.attr:
+                    return self.sh.shape(ann)
+        if isinstance(e, ast.Attribute) and isinstance(e.value, ast.Name) and env.get(e.value.id, ('any',))[0] == 'obj':
+            for name, _, ann, _ in self.sh.fields(env[e.value.id][1]):
+                if name == e.attr:
+                    return self.sh.shape(ann)
+        return ('any',)
+
+    def shared(self, e: ast.AST, env: dict[str, tuple]) -> bool:
+        """an expression that denotes an existing object: a bound element, `self.f`, or an attribute of a bound element"""
+        return (isinstance(e, ast.Name) and e.id in env) or (isinstance(e, ast.Attribute) and (
+            _is(e.value, 'self') or (isinstance(e.value, ast.Name) and e.value.id in env)))
+
+    def obj_copy(self, cname: str) -> str:
+        """The copy() method of an attrs class: a single `return Cls(args)`."""
+        if cname in self.obj_cache:
+            return self.obj_cache[cname]
+        self.obj_cache[cname] = 'CShare'       # a recursive class would share (never the case for the classes concerned)
+        fn = [n for n in self.sh.classes[cname].body if isinstance(n, ast.FunctionDef) and n.name == 'copy'][0]
+        body = _body(fn)
+        if not (len(body) == 1 and isinstance(body[0], ast.Return) and body[0].value is not None):
+            raise TranslateError(f'{cname}.copy: not a single return statement')
+        r = self.expr(body[0].value, {}, cname)
+        if not r.startswith('(CObj'):
+            raise TranslateError(f'{cname}.copy: does not return a new {cname}(...)')
+        self.obj_cache[cname] = r
+        return r
+
+    def expr(self, e: ast.AST, env: dict[str, tuple], cls: str) -> str:
+        if isinstance(e, ast.Constant) or _is_empty_literal(e):
+            return 'CDeep'
+        if self.shared(e, env):
+            return 'CShare'
+        if isinstance(e, ast.Call):
+            fname = ast.unparse(e.func)
+            if fname in ('deepcopy', 'copy.deepcopy') and e.args and self.shared(e.args[0], env):
+                return 'CDeep'
+            if fname in ('list', 'dict', 'set', 'sorted', 'copy.copy') and len(e.args) == 1 and not e.keywords and self.shared(e.args[0], env):
+                return self.shallow(self.typ(e.args[0], env, cls))
+            if isinstance(e.func, ast.Attribute) and e.func.attr == 'copy' and not e.args and not e.keywords and self.shared(e.func.value, env):
+                return self.shallow(self.typ(e.func.value, env, cls))
+            if isinstance(e.func, ast.Name) and self.sh.class_kind(e.func.id) == 'obj':
+                params = [(n, kw) for n, kw, _, init in self.sh.fields(e.func.id) if init]
+                given: dict[str, str] = {}
+                if len(e.args) > len(params) or any(isinstance(a, ast.Starred) for a in e.args) or any(k.arg is None for k in e.keywords):
+                    raise TranslateError(f'{e.func.id}(...): argument list not recognised')
+                for (n, _), a in zip(params, e.args):
+                    given[n] = self.expr(a, env, cls)
+                for k in e.keywords:
+                    hit = [n for n, kw in params if kw == k.arg]
+                    if len(hit) != 1 or hit[0] in given:
+                        raise TranslateError(f'{e.func.id}(...): keyword {k.arg} not recognised')
+                    given[hit[0]] = self.expr(k.value, env, cls)
+                return '(CObj [' + '; '.join(given.get(n, 'CDeep') for n, _ in params) + '])'
+        if isinstance(e, ast.Subscript) and isinstance(e.slice, ast.Slice) and e.slice.lower is None and e.slice.upper is None and e.slice.step is None \
+                and self.shared(e.value, env):
+            return self.shallow(self.typ(e.value, env, cls))
+        if isinstance(e, ast.List) and len(e.elts) == 1 and isinstance(e.elts[0], ast.Starred) and self.shared(e.elts[0].value, env):
+            return self.shallow(self.typ(e.elts[0].value, env, cls))
+        if isinstance(e, ast.Dict) and e.keys == [None] and self.shared(e.values[0], env):
+            return self.shallow(self.typ(e.values[0], env, cls))
+        if isinstance(e, (ast.ListComp, ast.DictComp)) and len(e.generators) == 1 and not e.generators[0].ifs and not e.generators[0].is_async:
+            g = e.generators[0]
+            src, var = g.iter, None
+            if isinstance(e, ast.DictComp):
+                if (isinstance(src, ast.Call) and isinstance(src.func, ast.Attribute) and src.func.attr == 'items' and not src.args
+                        and isinstance(g.target, ast.Tuple) and len(g.target.elts) == 2 and all(isinstance(x, ast.Name) for x in g.target.elts)
+                        and _is(e.key, g.target.elts[0].id)):      # type: ignore[attr-defined]
+                    src, var = src.func.value, g.target.elts[1].id   # type: ignore[attr-defined]
+            else:
+                if isinstance(src, ast.Call) and isinstance(src.func, ast.Attribute) and src.func.attr == 'values' and not src.args:
+                    src = src.func.value
+                if isinstance(g.target, ast.Name):
+                    var = g.target.id
+            if var is not None and self.shared(src, env):
+                t = self.typ(src, env, cls)
+                inner = self.expr(e.value if isinstance(e, ast.DictComp) else e.elt, {**env, var: t[1] if t[0] == 'coll' else ('any',)}, cls)
+                return f'(CMap {inner})'
+        if isinstance(e, ast.IfExp):
+            a, b = self.expr(e.body, env, cls), self.expr(e.orelse, env, cls)
+            t = e.test
+            # `x if isinstance(x, tuple) else list(x)`, `x if x == () else ...`: the shared branch is an immutable value
+            imm_true = (isinstance(t, ast.Call) and _is(t.func, 'isinstance') and len(t.args) == 2 and ast.dump(t.args[0]) == ast.dump(e.body)
+                        and all(x in _FROZEN_NAMES | _IMM_NAMES for x in ([y.id for y in t.args[1].elts if isinstance(y, ast.Name)]
+                                                                         if isinstance(t.args[1], ast.Tuple) else [getattr(t.args[1], 'id', '?')])))
+            imm_true = imm_true or (isinstance(t, ast.Compare) and len(t.ops) == 1 and isinstance(t.ops[0], ast.Eq) and ast.dump(t.left) == ast.dump(e.body)
+                                    and isinstance(t.comparators[0], ast.Tuple) and not t.comparators[0].elts)
+            if imm_true:
+                a = 'CDeep'
+            if a == b:
+                return a
+            if a == 'CDeep' and (isinstance(e.body, ast.Constant) or _is_empty_literal(e.body) or imm_true):
+                return b
+            if b == 'CDeep' and (isinstance(e.orelse, ast.Constant) or _is_empty_literal(e.orelse)):
+                return a
+        raise TranslateError(f'{cls}: copy expression not recognised: {ast.unparse(e)[:80]}')
+
+    def shallow(self, t: tuple) -> str:
+        if t[0] == 'obj':
+            return self.obj_copy(t[1])
+        return 'CShallow'
+
+
+def _copy_plan(tree: ast.Module) -> dict:
+    """EntityDef.__deepcopy__ (what EntityDef.engine_def / FGD.engine_dbase hand out are deepcopy() results of the cached engine
+    database): for every attribute of EntityDef its shape (from the annotation) and how the copy's value is produced."""
+    import copy as _copy
+    sh = _Shapes(tree)
+    cp = _CopyPlan(sh)
+    cls = 'EntityDef'
+    fn = _copy.deepcopy(_method(tree, cls, '__deepcopy__'))
+    fields = sh.fields(cls)
+    body = _body(fn)
+    # unroll `for key in ['a', 'b']:` over literal names; setattr(o, 'a', v) / getattr(o, 'a') with a literal name = attribute access
+    flat: list[ast.stmt] = []
+    for st in body:
+        if (isinstance(st, ast.For) and isinstance(st.target, ast.Name) and isinstance(st.iter, (ast.List, ast.Tuple)) and not st.orelse
+                and all(isinstance(x, ast.Constant) and isinstance(x.value, str) for x in st.iter.elts)):
+            for x in st.iter.elts:
+                for inner in st.body:
+                    flat.append(_subst(_copy.deepcopy(inner), st.target.id, x))      # type: ignore[arg-type]
+        else:
+            flat.append(st)
+
+    class Attr(ast.NodeTransformer):
+        def visit_Call(self, n: ast.Call) -> ast.AST:   # noqa: N802
+            self.generic_visit(n)
+            if _is(n.func, 'getattr') and len(n.args) == 2 and isinstance(n.args[1], ast.Constant) and isinstance(n.args[1].value, str):
+                return ast.Attribute(value=n.args[0], attr=n.args[1].value, ctx=ast.Load())
+            return n
+    stmts: list[ast.stmt] = []
+    for st in flat:
+        st = Attr().visit(st)
+        if (isinstance(st, ast.Expr) and isinstance(st.value, ast.Call) and _is(st.value.func, 'setattr') and len(st.value.args) == 3
+                and isinstance(st.value.args[1], ast.Constant) and isinstance(st.value.args[1].value, str)):
+            st = ast.Assign(targets=[ast.Attribute(value=st.value.args[0], attr=st.value.args[1].value, ctx=ast.Store())], value=st.value.args[2])
+        stmts.append(ast.fix_missing_locations(st))
+    obj: str | None = None
+    plan: dict[str, str] = {}
+    pending: dict[str, str | None] = {}      # local -> field it was stored into
+    filled: dict[str, str] = {}
+    for st in stmts:
+        if isinstance(st, ast.AnnAssign) and st.value is None:
+            continue                                                  # a bare annotation
+        tgt, val = None, None
+        if isinstance(st, ast.Assign) and len(st.targets) == 1:
+            tgt, val = st.targets[0], st.value
+        elif isinstance(st, ast.AnnAssign):
+            tgt, val = st.target, st.value
+        if tgt is not None and val is not None:
+            if isinstance(tgt, ast.Name) and obj is None and isinstance(val, ast.Call) and isinstance(val.func, ast.Attribute) and val.func.attr == '__new__':
+                obj = tgt.id
+                continue
+            if isinstance(tgt, ast.Name) and _is_empty_literal(val) and isinstance(val, (ast.Dict, ast.List)):
+                if tgt.id in pending:                   # the local is used again (an unrolled loop): close the previous use
+                    f_prev = pending[tgt.id]
+                    if f_prev is None or tgt.id not in filled:
+                        raise TranslateError(f'{cls}.__deepcopy__: the container {tgt.id} is re-bound before it was stored and filled')
+                    plan[f_prev] = filled.pop(tgt.id)
+                pending[tgt.id] = None
+                continue
+            if obj is not None and isinstance(tgt, ast.Attribute) and _is(tgt.value, obj):
+                if tgt.attr in plan:
+                    raise TranslateError(f'{cls}.__deepcopy__: {tgt.attr} is assigned twice')
+                if isinstance(val, ast.Name) and val.id in pending:
+                    if pending[val.id] is not None:
+                        raise TranslateError(f'{cls}.__deepcopy__: {val.id} is stored into two attributes')
+                    pending[val.id] = tgt.attr
+                    plan[tgt.attr] = '?' + val.id
+                    continue
+                if not any(isinstance(n, ast.Name) and n.id == 'self' for n in ast.walk(val)):
+                    plan[tgt.attr] = 'CDeep'            # built from the copy itself / constants (the _EntityView objects)
+                    continue
+                plan[tgt.attr] = cp.expr(val, {}, cls)
+                continue
+        if isinstance(st, ast.For) and not st.orelse and len(st.body) == 1:
+            inner = st.body[0]
+            src = st.iter
+            var, acc, val_e = None, None, None
+            if (isinstance(src, ast.Call) and isinstance(src.func, ast.Attribute) and src.func.attr == 'items' and not src.args
+                    and isinstance(st.target, ast.Tuple) and len(st.target.elts) == 2 and all(isinstance(x, ast.Name) for x in st.target.elts)
+                    and isinstance(inner, ast.Assign) and len(inner.targets) == 1 and isinstance(inner.targets[0], ast.Subscript)
+                    and isinstance(inner.targets[0].value, ast.Name) and _is(inner.targets[0].slice, st.target.elts[0].id)):   # type: ignore[attr-defined]
+                src, var, acc, val_e = src.func.value, st.target.elts[1].id, inner.targets[0].value.id, inner.value   # type: ignore[attr-defined]
+            elif (isinstance(st.target, ast.Name) and isinstance(inner, ast.Expr) and isinstance(inner.value, ast.Call)
+                  and isinstance(inner.value.func, ast.Attribute) and inner.value.func.attr == 'append' and isinstance(inner.value.func.value, ast.Name)
+                  and len(inner.value.args) == 1):
+                var, acc, val_e = st.target.id, inner.value.func.value.id, inner.value.args[0]
+            if var is not None and acc in pending and acc not in filled and cp.shared(src, {}):
+                t = cp.typ(src, {}, cls)
+                filled[acc] = '(CMap ' + cp.expr(val_e, {var: t[1] if t[0] == 'coll' else ('any',)}, cls) + ')'     # type: ignore[arg-type]
+                continue
+        if isinstance(st, ast.Return) and obj is not None and st.value is not None and _is(st.value, obj):
+            continue
+        raise TranslateError(f'{cls}.__deepcopy__: statement not recognised: {ast.unparse(st)[:80]}')
+    if obj is None:
+        raise TranslateError(f'{cls}.__deepcopy__: no `{cls}.__new__({cls})`')
+    for f, v in list(plan.items()):
+        if v.startswith('?'):
+            if v[1:] not in filled:
+                raise TranslateError(f'{cls}.__deepcopy__: the container stored into {f} is never filled')
+            plan[f] = filled[v[1:]]
+    missing = [n for n, _, _, _ in fields if n not in plan]
+    if missing:
+        raise TranslateError(f'{cls}.__deepcopy__: attributes not copied: {missing}')
+    rows = [(n, sh.coq(sh.shape(ann)), plan[n]) for n, _, ann, init in fields if init]
+    return {'rows': rows, 'object_copies': dict(cp.obj_cache)}
+
+
 
 # ------------------------------------------------------------------------------------------ emit
 def _nlist(xs) -> str:
@@ -2063,13 +2596,15 @@ def translate() -> tuple[str, dict]:
     md = _multi_db(fgd_tree)
     tt = _type_text(fgd_tree)
     kk = _kind_keyword(fgd_tree)
+    ha = _helper_args(fgd_tree)
+    cpl = _copy_plan(fgd_tree)
     for op in (wl['loop_op'], wl['nl_op']):
         if op not in OPS:
             raise TranslateError(f'comparison operator {op} not supported')
     ef = dict(db['ef_members'])
     lines = [
         '(* GENERATED by translate/c16_fgd.py from srctools/fgd.py, _engine_db.py, tokenizer.py, const.py. Do not edit. *)',
-        'From Coq Require Import List NArith String.', 'From SV Require Import Fmt.LongString Fmt.FgdLine Fmt.FgdTypeText SM.LazyDbMulti SM.FgdBlocks Fmt.FgdKindKw.',
+        'From Coq Require Import List NArith String.', 'From SV Require Import Fmt.LongString Fmt.FgdLine Fmt.FgdTypeText SM.LazyDbMulti SM.FgdBlocks Fmt.FgdKindKw Fmt.FgdHead SM.FgdCopyShare.',
         'Import ListNotations.', 'Open Scope string_scope.',
         'Inductive cmp_op := OpGt | OpGe | OpLt | OpLe | OpEq | OpNe.',
         '(* tokenizer.ESCAPES as (symbol, character); characters escape_text() never escapes *)',
@@ -2128,6 +2663,14 @@ def translate() -> tuple[str, dict]:
         'Definition pf_directives : list (list N) := [' + '; '.join(_cstr(d) for d in kk['directives']) + '].',
         'Definition entity_kind_values : list (list N) := [' + '; '.join(_cstr(d) for d in kk['kinds']) + '].',
         'Definition kind_writer_ops : list wop := [' + '; '.join(o[1:-1] if o.startswith('(') else o for o in kk['writer_ops']) + '].',
+        '(* EntityDef.parse, PAREN_ARGS branch: split / strip / filter / clearing of [""] (Fmt/FgdHead.v); joiners of EntityDef.export *)',
+        f'Definition gen_args_cfg : args_cfg := mk_args_cfg {ord(ha["sep"])}%N {_b(ha["strip"])} {ha["filter"]} {_b(ha["clear_sole"])}.',
+        'Definition helper_arg_joiners : list (list N) := [' + '; '.join(_cstr(j) for j in ha['joiners']) + '].',
+        '(* EntityDef.__deepcopy__: per attribute its shape (annotation) and how the copy is produced (SM/FgdCopyShare.v) *)',
+        '(* what EntityDef.engine_def / FGD.engine_dbase return: deepcopy(<cached object>) = CDeep, the cached object itself = CShare *)',
+        'Definition answer_copies : list (string * cexpr) := [' + '; '.join(
+            f'("{n}", {"CDeep" if d or (n.startswith("engine_dbase") and db["lazy"]["get_fgd_returns_deepcopy"]) else "CShare"})' for n, d in md['answers_deep']) + '].',
+        'Definition entity_copy_plan : list (string * (ftype * cexpr)) := [' + '; '.join(f'("{n}", ({t}, {e}))' for n, t, e in cpl['rows']) + '].',
         '(* _engine_db.build_blocks: size tests by role, and where blocks without entities leave the list (SM/FgdBlocks.v); serialise *)',
         'Definition gen_bcfg : bcfg := {| merge_fits := %s; add_fits := %s; ovf_full := %s; drop_empty_before_leftovers := %s; '
         'drop_empty_after_leftovers := %s |}.' % (_CMP_FN[db['build_blocks']['merge_op']], _CMP_FN[db['build_blocks']['add_op']],
@@ -2141,7 +2684,7 @@ def translate() -> tuple[str, dict]:
     ]
     if wl['notfound'] < 0:
         raise TranslateError('not-found comparison value is negative')
-    side = dict(type_text=tt, kind_keyword=kk, multi_db=md, write_longstring=wl, fgd_escape=fe, text_writers=tw, tokenizer=tok_side, engine_db={k: v for k, v in db.items() if k != 'bits'},
+    side = dict(type_text=tt, kind_keyword=kk, helper_args=ha, copy_plan=cpl, multi_db=md, write_longstring=wl, fgd_escape=fe, text_writers=tw, tokenizer=tok_side, engine_db={k: v for k, v in db.items() if k != 'bits'},
                 bit_ops=db['bits'])
     return '\n'.join(lines), side
 
